@@ -1206,6 +1206,9 @@ class CompositeEnvelope:
         # Make sure the order of the states in tensoring is correct
         self.reorder(*states)
 
+        # Reordering combines the states, if they are not in the same product state
+        ps = [p for p in self.states if any(so in p.state_objs for so in states)][0]
+
         outcome = ps.measure_POVM(operators, *states, destructive=destructive)
         return outcome
 
@@ -1287,6 +1290,9 @@ class CompositeEnvelope:
         # Make sure the order of the states in tensoring is correct
         self.reorder(*states)
 
+        # Reordering combines the states, if they are not in the same product state
+        ps = [p for p in self.states if any(so in p.state_objs for so in states)][0]
+
         ps.apply_kraus(operators, *states)
 
     def trace_out(self, *states: Union["BaseState"]) -> jnp.ndarray:
@@ -1324,6 +1330,9 @@ class CompositeEnvelope:
         ps = product_states[0]
 
         self.reorder(*states)
+
+        # Reordering combines the states, if they are not in the same product state
+        ps = [p for p in self.states if any(so in p.state_objs for so in states)][0]
 
         return ps.trace_out(*states)
 
